@@ -78,12 +78,12 @@ pub fn extract_fs(ctx: &mut Ctx) {
         let fname = |rng: &mut rand_chacha::ChaCha8Rng| ["a", "b.txt", "d/x.txt", "d/e/y", "l", "l/x.txt", "d", "h", "k/z"][rng.gen_range(0..9)].to_string();
         let k = rng.gen_range(1..6);
         let mut es: Vec<XE> = vec![];
-        let scenario = if case < 13 { case } else { rng.gen_range(0..17) };
+        let scenario = if case < 14 { case } else { rng.gen_range(0..18) };
         let k = if scenario == 12 || scenario == 10 { k.max(3) } else { k };
         // a third of the runs extract into the current directory without --out-dir (the base of every check is then empty)
-        let no_out_dir = case == 11 || (case >= 13 && case % 3 == 0); // the first twelve cases are the witnesses of the (now repaired) escapes and of links carrying permissions / times
-        let keep_perm = scenario == 5 || scenario == 9 || scenario == 12 || (scenario > 12 && rng.gen_bool(0.3));
-        let keep_time = scenario == 6 || scenario == 7 || (scenario > 12 && rng.gen_bool(0.4));
+        let no_out_dir = case == 11 || (case >= 14 && case % 3 == 0); // the first twelve cases are the witnesses of the (now repaired) escapes and of links carrying permissions / times
+        let keep_perm = scenario == 5 || scenario == 9 || scenario == 12 || scenario == 13 || (scenario > 13 && rng.gen_bool(0.3));
+        let keep_time = scenario == 6 || scenario == 7 || (scenario > 13 && rng.gen_bool(0.4));
         for i in 0..k {
             let e = match (scenario, i) {
                 (0, 0) => XE { name: "l".into(), kind: 2, content: format!("{root}/outside").into_bytes(), perm: None, time: None },          // absolute link to outside dir
@@ -110,6 +110,9 @@ pub fn extract_fs(ctx: &mut Ctx) {
                 // second name of the LINK; chmod/chown through it would reach the outside file
                 (12, 0) => XE { name: "s".into(), kind: 2, content: b"../outside/secret".to_vec(), perm: None, time: None },
                 (12, 1) => XE { name: "h".into(), kind: 3, content: b"s".to_vec(), perm: Some(0o777), time: None },
+                // a hard link entry carrying a permission whose source is a file that was in the output directory BEFORE the command
+                // (not in the archive): the mode of that file must not change (C20: nothing existing is modified)
+                (13, 0) => XE { name: "alias.txt".into(), kind: 3, content: b"victim.txt".to_vec(), perm: Some(0o777), time: None },
                 (5, 0) => XE { name: "l".into(), kind: 2, content: b"../outside/secret".to_vec(), perm: Some(0o777), time: None },  // link entry carrying a permission
                 _ => {
                     let kind = [0u8, 0, 0, 1, 2, 3][rng.gen_range(0..6)];
@@ -129,9 +132,13 @@ pub fn extract_fs(ctx: &mut Ctx) {
             es.push(e);
         }
         // pre-existing objects at some destinations
-        let overwrite = scenario == 10 || scenario == 11 || (scenario != 8 && scenario != 9 && rng.gen_bool(0.4));
+        let overwrite = scenario == 10 || scenario == 11 || (scenario != 8 && scenario != 9 && scenario != 13 && rng.gen_bool(0.4));
         if scenario == 8 {
             let _ = std::os::unix::fs::symlink("../outside", sbx.path("out/d"));
+        } else if scenario == 13 {
+            use std::os::unix::fs::PermissionsExt;
+            std::fs::write(sbx.path("out/victim.txt"), b"mine").unwrap();
+            std::fs::set_permissions(sbx.path("out/victim.txt"), std::fs::Permissions::from_mode(0o600)).unwrap();
         } else if scenario == 9 {
             std::fs::create_dir_all(sbx.path("out/d")).unwrap();
             use std::os::unix::fs::PermissionsExt;
